@@ -492,6 +492,17 @@ pub fn run_batch<W: World>(world: W, args: &BatchArgs, report: &Report) -> i32 {
         report.line(&format!("HARNESS-ERROR: {e}"));
         return 2;
     }
+    match std::thread::spawn(clock::self_check).join() {
+        Ok(Ok(())) => {}
+        Ok(Err(e)) => {
+            report.line(&format!("HARNESS-ERROR: {e}"));
+            return 2;
+        }
+        Err(_) => {
+            report.line("HARNESS-ERROR: clock seam self-check panicked");
+            return 2;
+        }
+    }
     let runs = args.runs.unwrap_or(match args.tier {
         Tier::Quick => info.quick_runs,
         Tier::Thorough => info.thorough_runs,
